@@ -45,15 +45,15 @@ PROP = dict(
          "the three-phase route is skipped for STONE1/2), METRIC/FIELD by case index. Non-trivial: both decks of the case are "
          "accepted and >= 300 (unscaled) / >= 30 (eps) comparisons or a complete history per cell (hyst) were made; distinct = "
          "distinct deck text.",
-    stages=[dict(harness="c15_satfunc", flavour="plain", cases={Q: 60000, T: 5000000}, timeout={Q: 900, T: 10800}, omp_threads=1),
-            dict(id="c15_satfunc_asan", harness="c15_satfunc", flavour="asan", cases={Q: 3000, T: 400000},
+    stages=[dict(harness="c15_satfunc", flavour="plain", cases={Q: 60000, T: 1000000}, timeout={Q: 900, T: 10800}, omp_threads=1),
+            dict(id="c15_satfunc_asan", harness="c15_satfunc", flavour="asan", cases={Q: 3000, T: 60000},
                  timeout={Q: 900, T: 10800}, omp_threads=1)],
-    min_nontrivial={Q: 55000, T: 4500000},
-    coverage_floor=[("c15_satfunc", "comparisons", {Q: 500000000, T: 40000000000}),
-                    ("c15_satfunc", "comparisons_unscaled", {Q: 300000000, T: 25000000000}),
-                    ("c15_satfunc", "comparisons_eps", {Q: 100000000, T: 8000000000}),
-                    ("c15_satfunc", "history_steps", {Q: 8000000, T: 650000000}),
-                    ("c15_satfunc", "scanning_curves_sampled", {Q: 500000, T: 40000000})],
+    min_nontrivial={Q: 55000, T: 694047},
+    coverage_floor=[("c15_satfunc", "comparisons", {Q: 500000000, T: 6000000000}),
+                    ("c15_satfunc", "comparisons_unscaled", {Q: 300000000, T: 3750000000}),
+                    ("c15_satfunc", "comparisons_eps", {Q: 100000000, T: 1250000000}),
+                    ("c15_satfunc", "history_steps", {Q: 8000000, T: 100000000}),
+                    ("c15_satfunc", "scanning_curves_sampled", {Q: 500000, T: 6000000})],
     not_decided=["three-phase interpolation (default blend within 1e-5 of Swco, STONE1, STONE2): the oil value of the three-phase "
                  "route is not compared there",
                  "shape of scaled curves between the end-points, monotonicity/bounds of scaled curves",
